@@ -7,6 +7,7 @@ import (
 	"os"
 	"path/filepath"
 	"sort"
+	"strings"
 	"sync"
 
 	"github.com/blugelabs/bluge/index"
@@ -46,6 +47,8 @@ type FaultPlan struct {
 	mu sync.Mutex
 	// by operation index (position in the trace): fault kind
 	AtOp map[int]string
+	// NoOpenLoad: never fault a load issued inside OpenWriter/OpenReader
+	NoOpenLoad bool
 	// sticky faults: active while opIdx in [From,To)
 	Fired map[string]int
 }
@@ -135,9 +138,17 @@ func (t *DirTrace) injectFor(opName, kind string) string {
 	if t.plan == nil {
 		return ""
 	}
-	if t.sim.ActorName() == "" {
+	actor := t.sim.ActorName()
+	if actor == "" {
 		// the harness's own probes (monitor, reopen after Close) are not part
 		// of the system under test: never faulted
+		return ""
+	}
+	if t.plan.NoOpenLoad && opName == "load" && strings.HasPrefix(actor, "client") {
+		// loads by a client happen only inside OpenWriter/OpenReader; a fault
+		// there is the listed known finding and is only placed alone (plans
+		// with several faults must not run into it after they diverged from
+		// the recorded run)
 		return ""
 	}
 	t.plan.mu.Lock()
@@ -204,9 +215,16 @@ type recCloser struct {
 	id     int
 	closed bool
 	mu     sync.Mutex
+	gate   bool
 }
 
 func (c *recCloser) Close() error {
+	if c.gate {
+		// a snapshot file is closed by loadSnapshot outside any lock: parking
+		// here holds its shared lock across other actors' steps, so that a
+		// clean-up meets a snapshot file it cannot remove
+		c.t.sim.Gate("dir.close", "snapshot")
+	}
 	c.mu.Lock()
 	dbl := c.closed
 	c.closed = true
@@ -248,7 +266,7 @@ func (d *RecDir) Load(kind string, id uint64) (*segment.Data, io.Closer, error) 
 	hid := d.t.loads
 	d.t.openLoads[hid] = fileName(kind, id)
 	d.t.mu.Unlock()
-	return data, &recCloser{t: d.t, inner: closer, id: hid}, nil
+	return data, &recCloser{t: d.t, inner: closer, id: hid, gate: kind == index.ItemKindSnapshot}, nil
 }
 
 type recWriter struct {
